@@ -183,6 +183,17 @@ Theorem C11_bad_key_rejected : forall core p key m mode, length key <> 16 -> hel
 Proof. exact helper_bad_key. Qed.
 Print Assumptions C11_bad_key_rejected.
 
+(* ---- 7. histories: SetIV and helper calls in any order, on buffers the caller reuses ---------------------------- *)
+(* every helper result is the standard's value on the VALUES of its arguments at call time and the IV installed
+   by the last successful SetIV (initially the package default); a rejected SetIV changes nothing; no call
+   changes the package IV or depends on the keys / data of earlier calls.  (Decryption calls: whole blocks.) *)
+Theorem C11_history : forall E D (calls : list mode_call) p, block_cipher E D ->
+  length (IV p) = 16 ->
+  Forall (fun c => length (m_key c) = 16 /\ (m_mode c = false -> exists n, length (m_in c) = 16 * n)) calls ->
+  modes_run E D p calls = modes_spec_run E D (IV p) calls.
+Proof. intros E D calls p [H1 H2 H3 H4] Hiv HF. exact (modes_run_spec E D H1 H2 H3 H4 calls HF p Hiv). Qed.
+Print Assumptions C11_history.
+
 (* ---- non-vacuity: SM4 instances, evaluated ------------------------------------------------------------------------ *)
 Definition ex_key : list N := A1_key.
 Definition ex_iv : list N := [0;1;2;3;4;5;6;7;8;9;10;11;12;13;14;15]%N.
@@ -217,3 +228,14 @@ Example C11_example_invalid_inputs :
   Sm4Ecb E D init_pkg ex_key (repeat 0%N 16) false = Ok [] /\
   Sm4Cbc E D init_pkg [1;2;3]%N ex_msg true = Err 1.
 Proof. vm_compute. repeat split; reflexivity. Qed.
+
+(* a history: CBC under the default IV, a rejected SetIV, CBC again (same result), a new IV, then decryption *)
+Example C11_example_history :
+  let E := sm4_encrypt_block in let D := sm4_decrypt_block in
+  let c0 := cbc_pkcs7 (E ex_key) (repeat 0%N 16) ex_msg in
+  let c1 := cbc_pkcs7 (E ex_key) ex_iv ex_msg in
+  modes_run E D init_pkg
+    [mkMCall None FnCbc ex_key ex_msg true; mkMCall (Some [1; 2; 3]%N) FnCbc ex_key ex_msg true;
+     mkMCall (Some ex_iv) FnCbc ex_key ex_msg true; mkMCall None FnCbc ex_key c1 false]
+  = [(None, Ok c0); (Some (Err 1), Ok c0); (Some (Ok tt), Ok c1); (None, Ok ex_msg)].
+Proof. vm_compute. reflexivity. Qed.
